@@ -6,6 +6,9 @@ copy by hand, read from the live source on every run -> lean/PartituraModel/Gen/
                         first_note_at_zero); the default tempo in microseconds per quarter is computed with the
                         loader's own expression `int(60 * (10**6 / default_bpm))`
 * forced keywords       the call `load_performance_midi(...)` inside midi_to_notearray (ast, no execution)
+* sort keys (round 6)   `ast`: the key tuple of the `.sort` of the loaded notes (the order of the ids) and whether the
+                        sort stands after the `adjust_time` assignments (fixes/C06-8); the key of the `sorted(...)`
+                        that orders the notes the saver writes
 * note_hash             the live function on its whole domain (16 channels x 128 pitches): the two coefficients, whether
                         it is `channel * a + pitch * b` everywhere and whether it is injective there
 
@@ -139,6 +142,50 @@ def gen_c06():
         vals["HASH_LINEAR"] = linear
         vals["HASH_INJECTIVE"] = injective
 
+        # ---- round 6: the sort keys (ast, no execution).  Loader: the key of the `.sort` that fixes the order - and so
+        # the ids - of the notes, and whether that sort stands AFTER the assignment of the final `adjust_time` seconds
+        # (fixes/C06-8).  Saver: the key of the `sorted(...)` that fixes the order in which the notes are written.
+        def _key_fields(call):
+            for k in call.keywords:
+                if k.arg == "key" and isinstance(k.value, ast.Lambda) and isinstance(k.value.body, ast.Tuple):
+                    arg = k.value.args.args[0].arg
+                    fs = []
+                    for el in k.value.body.elts:
+                        if (isinstance(el, ast.Subscript) and isinstance(el.value, ast.Name) and el.value.id == arg
+                                and isinstance(el.slice, ast.Constant) and isinstance(el.slice.value, str)):
+                            fs.append(el.slice.value)
+                        else:
+                            return None
+                    return fs
+            return None
+
+        sort_key, sort_after, write_key = [], False, []
+        try:
+            tree = ast.parse(textwrap.dedent(inspect.getsource(inspect.unwrap(load))))
+            sorts = [n for n in ast.walk(tree) if isinstance(n, ast.Call) and isinstance(n.func, ast.Attribute)
+                     and n.func.attr == "sort" and "notes" in ast.unparse(n.func.value)]
+            if len(sorts) != 1 or _key_fields(sorts[0]) is None:
+                raise ValueError("%d sorts of the notes" % len(sorts))
+            sort_key = _key_fields(sorts[0])
+            finals = [n.lineno for n in ast.walk(tree) if isinstance(n, ast.Assign) and isinstance(n.value, ast.Call)
+                      and getattr(n.value.func, "id", getattr(n.value.func, "attr", None)) == "adjust_time"
+                      and any(isinstance(t, ast.Subscript) and isinstance(t.slice, ast.Constant)
+                              and t.slice.value in ("note_on", "note_off") for t in n.targets)]
+            if not finals:
+                raise ValueError("no adjust_time assignment")
+            sort_after = sorts[0].lineno > max(finals)
+        except Exception as e:  # noqa
+            notes.append("load_performance_midi: the sort of the notes is not readable (%s)" % type(e).__name__)
+        try:
+            tree = ast.parse(textwrap.dedent(inspect.getsource(inspect.unwrap(save))))
+            sorts = [n for n in ast.walk(tree) if isinstance(n, ast.Call) and getattr(n.func, "id", None) == "sorted"
+                     and n.args and "notes" in ast.unparse(n.args[0])]
+            if len(sorts) != 1 or _key_fields(sorts[0]) is None:
+                raise ValueError("%d sorted(notes)" % len(sorts))
+            write_key = _key_fields(sorts[0])
+        except Exception as e:  # noqa
+            notes.append("save_performance_midi: the order in which the notes are written is not readable (%s)" % type(e).__name__)
+
     out = []
     w = out.append
     w("-- GENERATED by harness/translate_c06.py from partitura/io/exportmidi.py, importmidi.py, io/__init__.py — do not edit")
@@ -148,6 +195,9 @@ def gen_c06():
         w("def C06_%s : Nat := %d" % (k, vals[k]))
     for k in ("SAVE_MERGE", "LOAD_MERGE", "LP_MERGE", "LP_FNZ", "NTA_MERGE", "HASH_LINEAR", "HASH_INJECTIVE"):
         w("def C06_%s : Bool := %s" % (k, "true" if vals[k] else "false"))
+    w("def C06_SORT_KEY : List String := [%s]" % ", ".join(_lstr(f) for f in sort_key))
+    w("def C06_SORT_AFTER_ADJUST : Bool := %s" % ("true" if sort_after else "false"))
+    w("def C06_WRITE_KEY : List String := [%s]" % ", ".join(_lstr(f) for f in write_key))
     w("")
     w("def C06_EXTRACTION_OK : Bool := %s" % ("true" if not notes else "false"))
     w("def C06_EXTRACTION_NOTES : List String := [%s]" % ", ".join(_lstr(n) for n in notes))
